@@ -374,6 +374,41 @@ def same_target_sequences(ctx, db, aff):
     ctx.count("fraction conversions in same-target / same-source sequences", n)
 
 
+def zero_comparisons(ctx, db, aff):
+    """A fractional value that is exactly zero (0, 0 0/2, 1/2 - 1/2) is an amount like any other: compared across units - a
+    unit with a zero point of its own among them - the order is the order of the physical amounts."""
+    from barril.basic.fraction import FractionValue
+    from barril.units import FractionScalar
+
+    ops = (("<", operator.lt), ("<=", operator.le), (">", operator.gt), (">=", operator.ge))
+    n = 0
+    for qi, (qt, us) in enumerate(sorted(table.units_by_type(db).items())):
+        us = [u for u in us if u in aff and aff[u].exact and aff[u].slope > 0]
+        if qt == "Unknown" or len(us) < 2 or qi % ctx.nshards != ctx.shard:
+            continue
+        offs = [u for u in us if aff[u].off != 0.0]
+        pairs = [(u, v) for u in offs for v in us if v != u] + [(v, u) for u in offs for v in us if v != u] + [(us[0], us[-1])]
+        for u, v in pairs[:40]:
+            au, av = aff[u], aff[v]
+            for za, zb in ((FractionValue(0), FractionValue(1, (1, 2))), (FractionValue(0, (0, 2)), FractionValue(0)), (FractionValue(1, (1, 2)), FractionValue(0.0)), (FractionValue(0.5, (-1, 2)), FractionValue(300)),
+                           (FractionValue(-400), FractionValue(0))):  # fmt: skip
+                A = Fr(au.off) + Fr(au.slope) * Fr(float(za))
+                B = Fr(av.off) + Fr(av.slope) * Fr(float(zb))
+                noise = Fr(64 * conv.EPS) * (abs(Fr(au.off)) + abs(A) + abs(Fr(av.off)) + abs(B))
+                case = {"qt": qt, "u": u, "v": v, "a": repr(za), "b": repr(zb)}
+                ctx.ev()
+                n += 1
+                try:
+                    fa, fb = FractionScalar(za, u), FractionScalar(zb, v)
+                    for nm, op in ops:
+                        if abs(A - B) > noise and bool(op(fa, fb)) != op(A, B):
+                            ctx.violation("FractionScalar-with-a-zero-value-compares-against-the-physical-amounts:%s" % nm, dict(case, got=bool(op(fa, fb)), exact=op(A, B)), replay=case)
+                            break
+                except Exception as e:
+                    ctx.violation("FractionScalar-comparison-raised:%s" % type(e).__name__, dict(case, error=str(e)[:160]), replay=case)
+    ctx.count("comparisons of fractional values one of which is zero", n)
+
+
 # ------------------------------------------------------------------------------------------ D
 def fraction_scalars(ctx, db, aff, r):
     from barril.basic.fraction import FractionValue
@@ -522,6 +557,7 @@ def run(ctx):
     with table.pushed(db):
         aff = conv.describe(db)
         same_target_sequences(ctx, db, aff)
+        zero_comparisons(ctx, db, aff)
         fraction_scalars(ctx, db, aff, r)
     if ctx.shard == 0:
         validation(ctx, r)
